@@ -800,7 +800,73 @@ func engQuery(e *Env) {
 	e.count(fmt.Sprintf("constant_filters_%dpct", 100*constant/max(total, 1)))
 	malformedStream(e, ctx, x, r, nMal)
 	bigSumWitness(e, ctx, x)
+	manyCollections(e, ctx, r)
 	writeQueryCases(e, qcases, acases)
+}
+
+// manyCollections: a node with 12-14 collections added one by one, whose field names overlap but sit at different
+// positions; every document must read back exactly what was written, in every collection (identifiers of
+// collections and fields are short numbers; 1 is a prefix of 10, 11, ...).
+func manyCollections(e *Env, ctx context.Context, r *Rng) {
+	x := newNd(ctx, "M")
+	x.noEvents()
+	defer x.close(ctx)
+	pool := []string{"aaa", "bbb", "ccc", "ddd", "eee"}
+	n := 12 + r.Intn(3)
+	fieldsOf := make([][]string, n)
+	for i := 0; i < n; i++ {
+		fs := append([]string{}, pool...)
+		switch {
+		case i == 0:
+			// all fields, in pool order
+		case i >= 9:
+			// a single field that collection 0 has at another position: if the two collections were confused, two
+			// fields of collection 0 would share one slot
+			fs = []string{pool[1+(i-9)%4]}
+		default:
+			Shuffle(r, fs)
+			fs = fs[:1+r.Intn(len(fs))]
+		}
+		fieldsOf[i] = fs
+		var decl []string
+		for _, f := range fs {
+			decl = append(decl, f+": String")
+		}
+		x.addSchema(ctx, fmt.Sprintf("type Mc%d { %s }", i, strings.Join(decl, " ")))
+	}
+	for i := 0; i < n; i++ {
+		var in, sel []string
+		want := map[string]any{}
+		for _, f := range fieldsOf[i] {
+			v := fmt.Sprintf("c%d-%s", i, f)
+			in = append(in, fmt.Sprintf(`%s: "%s"`, f, v))
+			sel = append(sel, f)
+			want[f] = v
+		}
+		if _, errs := x.gql(ctx, fmt.Sprintf(`mutation { create_Mc%d(input: {%s}) { _docID } }`, i, strings.Join(in, ", "))); errs != "" {
+			e.violate("harness-query", "manyCollections create: "+errs, nil)
+			continue
+		}
+		fieldsOf[i] = sel
+	}
+	for i := 0; i < n; i++ {
+		q := fmt.Sprintf(`query { Mc%d { %s } }`, i, strings.Join(fieldsOf[i], " "))
+		d, errs := x.gql(ctx, q)
+		rows := rowsOf(d, fmt.Sprintf("Mc%d", i))
+		e.Res.Evaluations++
+		ok := errs == "" && len(rows) == 1
+		if ok {
+			for _, f := range fieldsOf[i] {
+				if fmt.Sprint(rows[0][f]) != fmt.Sprintf("c%d-%s", i, f) {
+					ok = false
+				}
+			}
+		}
+		if !ok {
+			e.violate("field-mixup", fmt.Sprintf("collection %d of %d (fields %v): %s returns %s %s, every field f was written as c%d-f", i, n, fieldsOf[i], q, canonJSON(d), errs, i), map[string]any{"collections": fieldsOf})
+		}
+	}
+	e.count("many_collections_worlds")
 }
 
 // bigSumWitness: _sum over Int values whose total exceeds 2^53 (values of that size can only be written through the
